@@ -1,6 +1,7 @@
 """C17 check configuration (see lib/props.py for the field meanings)."""
 
 PROP = {
+    "thorough_scale": 4,
     "pkg": "internal/filtering",
     "files": ["filtering/c17_world_test.go", "filtering/c17_paths_test.go"],
     "level": "exploration",
